@@ -40,6 +40,8 @@ func genC11(t *rapid.T) c11Case {
 		{edit(0, "comment", "mine, before the other one merges"), {Kind: "push", R: 0}, edit(1, "comment", "theirs, concurrent"), {Kind: "pull", R: 1}, {Kind: "push", R: 1}, {Kind: "pull", R: 0}, edit(0, "title", "Crash on start (after their merge)")},
 		// the cache is built from git by the running process (lost or outdated cache files), which then pulls an update and edits
 		{edit(0, "comment", "pushed while the other cache is rebuilt"), {Kind: "push", R: 0}, {Kind: "rebuild", R: 1}, {Kind: "pull", R: 1}, edit(1, "comment", "after rebuild and pull")},
+		// two simultaneous requests on one bug
+		{{Kind: "race", R: 1, Bug: 0, Size: 15}, edit(0, "comment", "elsewhere meanwhile"), {Kind: "push", R: 0}, {Kind: "pull", R: 1}},
 		// the index directory is lost, the cache files are not
 		{edit(1, "comment", "before the index directory goes"), {Kind: "dropindex", R: 1}, edit(1, "comment", "after it")},
 	}
@@ -54,6 +56,9 @@ func genC11(t *rapid.T) c11Case {
 		acts = append(out, acts[at:]...)
 	}
 	c.Actions = append(pre, acts...)
+	if rapid.Bool().Draw(t, "endsWithSimultaneousRequests") {
+		c.Actions = append(c.Actions, CAction{Kind: "race", R: rapid.IntRange(0, 1).Draw(t, "raceR"), Bug: rapid.IntRange(0, 7).Draw(t, "raceBug"), Size: rapid.IntRange(0, 24).Draw(t, "raceK")})
+	}
 	return c
 }
 
